@@ -40,6 +40,23 @@ func (g *G) Instr() (of.Instruction, *spec.Node, string) {
 			n.Add(ns[i])
 		}
 	}
+	// Late growth (framing / size checks only, see PacketOut): InstrActions.Len walks its actions when asked, so
+	// the message's own size and header length follow an action that grows after it was added, while the
+	// instruction's cached length field does not (which is why the wire-grammar checks keep to bottom-up order).
+	if g.LateGrowth && g.Budget > 256 && g.Chance("late_growth_instr", 1, 4) {
+		ct := of.NewNXActionConnTrack()
+		cn := spec.N("nx.ct", spec.U("flags", 0), spec.U("zone_src", 0), spec.U("zone_ofs_nbits", 0), spec.U("recirc_table", 0xff), spec.U("alg", 0))
+		in.AddAction(ct, false)
+		n.Add(cn)
+		g.Budget -= 24
+		for i, k := 0, g.Int("late_nested_instr", 1, 3); i < k; i++ {
+			sub, sn := genNAT(g)
+			g.Budget -= len(spec.Encode(sn))
+			ct.AddAction(sub)
+			cn.Add(sn)
+		}
+		g.Label("late_growth_in_instruction")
+	}
 	return in, n, name
 }
 
